@@ -394,40 +394,15 @@ def _model_for(part_name, tier="quick", seed=0):
     raise KeyError(part_name)
 
 
-def _job(args):
-    pname, fargs, prefix, depth = args
-    return pname, X.bfs(_mk(*fargs), depth, prefix=prefix, xcheck_every=97)
-
-
-def explore_parts(plist, seed, split):
-    """All parts in ONE process pool: the tree below every distinct state at depth `split` is one job (states are
-    de-duplicated globally up to the split depth and inside each job below it; duplicates across jobs cost time only)."""
-    import multiprocessing as mp
-    results, jobs = {}, []
-    for p in plist:
-        fargs = (p["name"], p["setup"], p["alphabet"], p["max_objs"], p["consumer"], seed)
-        model = _mk(*fargs)
-        sd = min(split, p["depth"])
-        head = X.bfs(model, sd, xcheck_every=97)
-        head.complete, head.cap_hit = True, None
-        results[p["name"]] = head
-        if p["depth"] > sd:
-            jobs += [(p["name"], fargs, pre, p["depth"]) for pre in X._prefixes(model, sd)]
-    jobs.sort(key=lambda j: (len(j[1][2]), repr(j[2])), reverse=True)      # long alphabets first (better balance)
-    if jobs:
-        with mp.Pool(16) as pool:
-            for pname, r in pool.imap_unordered(_job, jobs, chunksize=1):
-                results[pname].merge(r)
-    return results
-
-
 def run(ctx):
     states = trans = xchecks = pruned = 0
     digests, samples, caps = [], [], []
     outcomes = set()
     complete = True
     plist = parts(ctx.tier)
-    results = explore_parts(plist, ctx.seed, 2 if ctx.tier == "quick" else 3)
+    jobs = [dict(name=p["name"], depth=p["depth"], fargs=(p["name"], p["setup"], p["alphabet"], p["max_objs"], p["consumer"], ctx.seed))
+            for p in plist]
+    results = L.explore_parts(_mk, jobs, 2 if ctx.tier == "quick" else 3, max_violations=10**6)
     for p in plist:
         r = results[p["name"]]
         states += r.states
